@@ -22,6 +22,7 @@ EXTRA = {
  "C08": "Also: overlapping deliveries to capped mailboxes; removals of the oldest mail racing with deliveries on a full size-limited store; an overtaken registration at the mem.add.visible hook; a changed cap on reopen; a capped file-store mailbox whose content file was lost; deliveries declaring fewer bytes than they send.",
  "C09": "Also: content read through message handles judged against the delivery that created them; a keeper message exposing accounting drift; index files damaged behind the store while healthy mailboxes are used concurrently; owners cycling mailboxes that share hash directories.",
  "C10": "Also: concurrent first reads after a reopen; reopen with a changed cap; whole-service lifecycles (FullAssembly restart with an open POP3 session, retention 0); reopens and restarts that go straight on with the history without an immediate read.",
+ "C11": "Also: whole episodes in fresh processes - a process killed inside a delivery and a restarted process (fresh id counter) delivering to the same mailbox within the same wall-clock second.",
  "C12": "Also: the full assembly started with a failing listener or cancelled before ready; the real run loop and mid-scan cancellation; content files removed before the scan; mail received through the manager with lying Date headers; RetentionSleep 0 cancellation; hostile store directory names; a size-limited memory store with deliveries forcing evictions during the scan.",
  "C13": "Also: QUIT transmitted with the client gone before the reply; logical idle-timeout endings; another party removing marked messages, purging or emptying the mailbox and delivering anew between two commands; delivery-based identity in the QUIT oracle.",
  "C14": "Also: content the MIME parser rejects; mailbox names of up to 128 characters; store-side removals; the Go client with a trailing-slash base URL; an API call while a delivery to the same mailbox is in flight.",
